@@ -553,3 +553,47 @@ def c17(cases, res):
     res.notes["oracle_twin_comparisons"] = twins
     res.notes["oracle_sparse_cases"] = sparse_cases
     return out
+
+
+# ---------------------------------------------------------------- C01
+
+SPACE_CODE = 48
+
+
+def event_consistent(step):
+    """the key events the C API can produce (Model: event_ok): a printable ASCII character or U+FFFD,
+    and the Space key carries ' '.  The generator also sends arbitrary events through the Rust API;
+    for those the two full_width_symbol_input(..).unwrap() sites of Chinese mode are outside C01."""
+    if not is_key(step):
+        return True
+    code, uni = key_code(step), int(step.op[3])
+    if code == SPACE_CODE:
+        return uni == 32
+    return 32 <= uni <= 126 or uni == 0xFFFD
+
+
+def c01(cases, res):
+    """no call panics (the Rust API is driven under catch_unwind: a panic is an `R PANIC` / `O PANIC`
+    line; through the C API it would abort the process)"""
+    out = []
+    ops = panics = excluded = 0
+    for case in cases:
+        consistent = True
+        for i, prev, s in steps_with_prev(case):
+            ops += 1
+            consistent = consistent and event_consistent(s)
+            per_page = opts_of(s)[7] if s.snap else 1
+            if s.res == "PANIC" or (s.all_o and s.all_o[-1].startswith("PANIC")) or (s.raw_o or "").startswith("PANIC"):
+                panics += 1
+                if not consistent:
+                    excluded += 1
+                    break
+                out.append(fail("panic", case, i, "the call panicked: %s" % " ".join(s.op)))
+                break
+            if s.op[0] == "opts" and s.op[1].split(",")[7] == "0":
+                consistent = False          # candidates_per_page = 0 is rejected by the C API (Model: opts_ok)
+            _ = per_page
+    res.notes["oracle_ops"] = ops
+    res.notes["oracle_panics_seen"] = panics
+    res.notes["oracle_panics_outside_the_c_api_domain"] = excluded
+    return out
